@@ -78,6 +78,9 @@ static void scen_c17(int histories, int stream) {
         tpm2_startup(&b, 0);
         int pre = rnd(6);
         for (int i = 0; i < pre; i++) { cmd_begin(&b, ST_SESSIONS, CC_ClearControl); b_u32(&b, RH_PLATFORM); auth_pw(&b, "", 0); b_u8(&b, rnd(2)); run(&b); }
+        /* a healthy volatile + permanent blob pair taken before the failure */
+        unsigned char *hv = NULL, *hp = NULL; uint32_t hvl = 0, hpl = 0;
+        TPMLIB_GetState(TPMLIB_STATE_VOLATILE, &hv, &hvl); TPMLIB_GetState(TPMLIB_STATE_PERMANENT, &hp, &hpl);
         int route = rnd(3);
         if (route == 0 || route == 2) {
             /* storage refuses the next commit */
@@ -97,7 +100,12 @@ static void scen_c17(int histories, int stream) {
         { TPM_RESULT r = TPM_IO_Hash_Start(); tr("api name=iohash_start_in_failure ret=%u", r);
           r = TPM_IO_Hash_Data((const unsigned char *)"x", 1); tr("api name=iohash_data_in_failure ret=%u", r);
           r = TPM_IO_Hash_End(); tr("api name=iohash_end_in_failure ret=%u", r); }
-        c17_stream(&b, 5);
+        /* SetState is refused while the TPM runs and must not end failure mode */
+        { TPM_RESULT r = TPMLIB_SetState(TPMLIB_STATE_VOLATILE, hv, hvl); tr("api name=setstate_vol_in_failure ret=%u", r);
+          r = TPMLIB_SetState(TPMLIB_STATE_PERMANENT, hp, hpl); tr("api name=setstate_perm_in_failure ret=%u", r);
+          free(hv); free(hp); }
+        c17_failinfo();
+        c17_stream(&b, 25);
         /* failure mode survives suspend/resume */
         { long sc = g_store_calls; faults_clear();
           TPM_RESULT r = tpm2_suspend_resume(NULL, NULL);
@@ -109,6 +117,19 @@ static void scen_c17(int histories, int stream) {
         TPM_RESULT r = tpm2_powercycle();
         Rsp rs = tpm2_startup(&b, 0);
         tr("recover ret=%u startup_rc=%u infail=%d", r, rs.rc, g_inFailureMode);
+        /* failure arising inside MainInit must come back through its return value */
+        if (h % 2 == 0) {
+            int mode = 1 + rnd(3);   /* 1 load TPM_FAIL, 2 garbage, 3 truncated */
+            TPMLIB_Terminate();
+            g_load_fail_at = g_load_calls + (mode == 1 ? rnd(2) : 1); g_load_fail_mode = mode;   /* the 2nd load is the one MainInit acts on */
+            long sc = g_store_calls;
+            TPM_RESULT ri = TPMLIB_MainInit();
+            tr("initfail mode=%d ret=%u infail=%d stores=%ld fired=%ld", mode, ri, g_inFailureMode, g_store_calls - sc, g_fault_fired);
+            if (g_inFailureMode) { c17_failinfo(); c17_stream(&b, 10); }
+            faults_clear();
+            TPM_RESULT rr = tpm2_powercycle(); Rsp rs2 = tpm2_startup(&b, 0);
+            tr("recover ret=%u startup_rc=%u infail=%d", rr, rs2.rc, g_inFailureMode);
+        }
     }
     b_free(&b);
 }
